@@ -39,7 +39,10 @@ impl<'a, P: Property> Exec<'a, P> {
     pub fn exec(&mut self, case: &P::Case) -> Result<Outcome, Inconclusive> {
         if !P::ISOLATED {
             return match super::panics::catch(|| self.prop.check(case)) {
-                Ok(o) => Ok(o),
+                Ok(o) => match &o.fail {
+                    Some(f) if f.clause.starts_with("harness-") => Err(Inconclusive(format!("{}: {}", f.clause, f.detail))),
+                    _ => Ok(o),
+                },
                 Err(p) => Err(Inconclusive(format!(
                     "harness bug: panic escaped the property's own capture: {p}"
                 ))),
@@ -314,7 +317,7 @@ pub fn run<P: Property>(tier: Tier) -> i32 {
                             break;
                         }
                         let mut local = Agg::default();
-                        let res = match phase {
+                        let res = super::panics::catch(|| match phase {
                             Phase::Random { cases, strat, .. } => {
                                 let per = cases / nshards + u64::from(shard < cases % nshards);
                                 let s = splitmix64(
@@ -333,6 +336,10 @@ pub fn run<P: Property>(tier: Tier) -> i32 {
                                     &mut ex, pname, lo, hi, gen, &known, &mut local, &fail_order,
                                 )
                             }
+                        });
+                        let res = match res {
+                            Ok(r) => r,
+                            Err(p) => Err(Inconclusive(format!("harness bug: panic in the runner/generator: {p}"))),
                         };
                         agg.lock().unwrap().merge(local);
                         match res {
